@@ -61,9 +61,21 @@ def from_json(j):
     raise ValueError(j)
 
 
+class UserStop(StopIteration):
+    """user functions may raise anything, e.g. next() on an empty iterator"""
+
+
+class UserKey(KeyError):
+    pass
+
+
+USER_EXC = [UserError, UserStop, UserKey, UserError]
+RAISED = []
+
+
 def exc_name(e):
-    """canonical exception class of an outcome"""
-    if isinstance(e, UserError):
+    """canonical exception class of an outcome; a user exception counts only if it is the very object raised"""
+    if RAISED and e is RAISED[-1]:
         return 'User:' + str(e.args[0])
     for cls, name in ((KeyError, 'KeyError'), (ValueError, 'ValueError')):
         if type(e) is cls:
@@ -83,7 +95,9 @@ class SymLog:
         def f(*a, **k):
             self.calls.append((name, a, tuple(k.items())))
             if name in self.bad:
-                raise UserError(name)
+                exc = USER_EXC[sum(map(ord, name)) % len(USER_EXC)](name)
+                RAISED.append(exc)
+                raise exc
             return (APP, name, a, tuple(k.items()))
 
         f.__name__ = f.__qualname__ = name
